@@ -24,6 +24,11 @@ P132   == <<1, 3, 2>>
 P212   == <<2, 1, 2>>
 P2132  == <<2, 1, 3, 2>>
 
+\* the table is keyed by the transaction id itself
+IdKey == [t \in Ids |-> t]
+\* named deviation "lossy-key": distinct ids, one slot
+LossyKey == [t \in Ids |-> 0]
+
 \* the rule: every request is registered before the first of its transport writes
 RegFirst == [i \in 1..Len(Reqs) |-> 0]
 \* named deviation "register-after-write"
@@ -45,6 +50,24 @@ McView == <<widx, wpc, wparts, wreg, pending, written, nresp, inbox, rcur, rrese
 GenSpec == Init /\ [][GenNext]_vars
 Case == [sched |-> sched, results |-> results, reqs |-> Reqs, parts |-> Parts, dups |-> Dups, failed |-> FailedIds]
 Emit == Done => PrintT(<<"CASE", ToJson(Case)>>)
+
+\* The id dimension: the model's ids are abstract names of DISTINCT transactions; every schedule is emitted once per
+\* class of concrete AMF0 numbers (decimal strings; all positive - the library tracks ids > 0 - and pairwise distinct
+\* doubles) that are distinct as numbers but equal under some lossy conversion: same integral part; below 1; equal
+\* modulo 2^32; equal as float32; around 2^53; beyond int64; adjacent doubles (equal in short decimal formatting);
+\* above 2^31 and equal modulo 2^32.
+IdClasses == {
+  <<"2.75", "2.5", "2.25">>,
+  <<"0.25", "0.5", "0.75">>,
+  <<"1", "4294967297", "8589934593">>,
+  <<"16777216", "16777217", "16777218">>,
+  <<"9007199254740991", "9007199254740992", "9007199254740994">>,
+  <<"1e300", "1.5e300", "1e308">>,
+  <<"2", "2.0000000000000004", "2.000000000000001">>,
+  <<"3000000000", "7294967296", "11589934592">> }
+IdList == [k \in 1..Cardinality(Ids) |-> CHOOSE t \in Ids : Cardinality({u \in Ids : u < t}) = k - 1]
+EmitIds == Done => \A c \in IdClasses :
+              PrintT(<<"CASE", ToJson(Case @@ [ids |-> [k \in 1..Cardinality(Ids) |-> <<IdList[k], c[k]>>]])>>)
 
 \* the size dimension: every schedule is emitted once per (request size, output chunk size) - sizes below / around /
 \* far above a write buffer of a few KB (up to several times a 64 KB one), chunk sizes default / one buffer / larger than
